@@ -22,7 +22,7 @@ import (
 )
 
 func init() {
-	register(&Prop{ID: "C09", Gen: genC09, Run: runC09, Timeout: 180 * time.Second})
+	register(&Prop{ID: "C09", Gen: genC09, Run: runC09, Timeout: 60 * time.Second})
 }
 
 type c09Key struct {
